@@ -191,6 +191,8 @@ class Resolver:
             if isinstance(r, ClassInfo):
                 return inst(r.qname)
             if isinstance(r, tuple) and r[0] == "ext":
+                if r[1].startswith("typing."):
+                    return UNKNOWN
                 return frozenset([("ext", r[1])])
             return UNKNOWN
         if isinstance(ann, ast.BinOp) and isinstance(ann.op, ast.BitOr):
@@ -309,6 +311,10 @@ class Resolver:
             d = defaults[i] if i < len(defaults) else None
             if not t and isinstance(d, ast.Constant) and d.value is not None:
                 t = frozenset([("prim", type(d.value).__name__)])
+            if not t and isinstance(d, (ast.Name, ast.Attribute)):
+                r = self.prog.resolve_dotted(f.module, d)
+                if isinstance(r, ClassInfo):
+                    t = frozenset([("cls", r.qname)])
             env[p.arg] = t
         if f.cls is not None and f.kind in ("method", "getter", "setter") and allp:
             env[allp[0].arg] = inst(f.cls.qname)
@@ -316,26 +322,44 @@ class Resolver:
             env[allp[0].arg] = frozenset([("cls", f.cls.qname)])
         if a.vararg:
             env[a.vararg.arg] = seq(self.param_types.get((q, "*" + a.vararg.arg), UNKNOWN))
-        # usage typing: X[i].<SideState field>  =>  X is a SyncEntry
-        try:
-            se = self.prog.cls("SyncEntry").qname
-        except AnalysisError:
-            se = None
         nodes = self.own_nodes(f)
-        if se:
-            for n in nodes:
-                if isinstance(n, ast.Attribute) and isinstance(n.value, ast.Subscript) and isinstance(n.value.value, ast.Name):
-                    if n.attr in self._sidestate_fields or (n.attr.startswith("_") and n.attr[1:] in self._sidestate_fields):
-                        nm = n.value.value.id
-                        if not env.get(nm):
-                            env.setdefault("\0usage", frozenset())
-                            env[nm] = union(env.get(nm, UNKNOWN), inst(se))
         # assignments, two rounds for chains
         for _ in range(2):
             for n in nodes:
                 self._bind_stmt(f, env, n)
             self._expr_cache = {k: v for k, v in self._expr_cache.items() if k[0] != q}
+        # usage typing: X[i].<SideState field>  =>  X is a SyncEntry  (only for names nothing else typed)
+        try:
+            se = self.prog.cls("SyncEntry").qname
+        except AnalysisError:
+            se = None
+        used = False
+        if se:
+            for n in nodes:
+                if isinstance(n, ast.Attribute) and isinstance(n.value, ast.Subscript) and isinstance(n.value.value, ast.Name):
+                    if n.attr in self._sidestate_fields or (n.attr.startswith("_") and n.attr[1:] in self._sidestate_fields):
+                        nm = n.value.value.id
+                        if not env.get(nm) and (nm in env or not self._visible_outside(f, nm)):
+                            env[nm] = inst(se)
+                            used = True
+        if used:
+            self._expr_cache = {k: v for k, v in self._expr_cache.items() if k[0] != q}
+            for n in nodes:
+                self._bind_stmt(f, env, n)
+            self._expr_cache = {k: v for k, v in self._expr_cache.items() if k[0] != q}
         return env
+
+    def _visible_outside(self, f, name) -> bool:
+        """True when `name` is bound by an enclosing function or the module (then it is not this function's to type)."""
+        g = f.parent
+        while g is not None:
+            if name in g.all_param_names() or name in g.nested or name in g.nested_classes:
+                return True
+            for n in self.own_nodes(g):
+                if isinstance(n, ast.Name) and isinstance(n.ctx, ast.Store) and n.id == name:
+                    return True
+            g = g.parent
+        return self.prog.resolve_symbol(f.module.name, name) is not None
 
     def _bind(self, f, env, target, t: T):
         if isinstance(target, ast.Name):
@@ -920,9 +944,9 @@ class Resolver:
                 if term[0] == "func" and term[1] in prog.functions:
                     targets.append(prog.functions[term[1]])
                 elif term[0] == "cls":
-                    init = prog.classes[term[1]].lookup("__init__")
-                    if init:
-                        targets.append(init)
+                    for t_init in self.virtual_targets(prog.classes[term[1]], "__init__"):
+                        if t_init not in targets:
+                            targets.append(t_init)
                     cs.kind = "ctor"
                     status = "resolved"
                 elif term[0] == "ext":
